@@ -3,6 +3,7 @@
 From Coq Require Import List NArith ZArith Bool Floats SpecFloat QArith.
 From LinfaVerif Require Export Common.Num Common.NdSum Common.Run Common.B32 Common.QF C03.Model.
 From LinfaVerif Require Import C03.Sigmoid.
+From LinfaVerif Require Export C03.CorrMat.
 Import ListNotations.
 
 Definition o64 := B64_ops.
@@ -31,7 +32,10 @@ Inductive case :=
 | CAFF (id kind : N) (mean scale : list float) (W : list (list float)) (b : list float)
        (X : list (list float)) (out : list (list float)) (labs : list N)
 (* a correspondence code evaluated by the Rust harness (transliterations that need libm) *)
-| CEXT (id code : N).
+| CEXT (id code : N)
+(* the array-level models of C03/MatModel.v (the objects of the T2 theorems) against the
+   implementation's predict_inplace on a pre-filled target: see C03/CorrMat.v *)
+| CMAT (id : N) (m : mcase).
 
 Definition rows_eqb (a b : list (list float)) : bool := list_eqb (list_eqb f64_biteq) a b.
 Definition lor_list (l : list N) : N := fold_left N.lor l 0%N.
@@ -234,6 +238,7 @@ Definition run_case (c : case) : verdict :=
   | CISO id reg resp xs out => (id, run_iso reg resp xs out)
   | CAFF id kind mean scale W b X out labs => (id, run_aff kind mean scale W b X out labs)
   | CEXT id code => (id, (code, 0%N))
+  | CMAT id m => (id, (run_mcase m, 0%N))
   end.
 
 Definition run_cases (cs : list case) : list N := report (map run_case cs).
